@@ -125,6 +125,29 @@ def sig_names(sig):
     return list(sig["args"]) + list(sig["kwonly"])
 
 
+DEFAULT_TEXTS = ["2+3", "None", "os.sep", "'q'", "a b", "x", "1", "[1, 2]", "-5", "--x", "", " ", "1/0", "exit()"]
+DEFAULT_LITERALS = ["None", "0", "False", "()"]
+
+
+def add_defvals(rng, sig, cands=(), real=False):
+    """Give some defaulted parameters a real default value instead of the harness' sentinel object: a string
+    (expression-like text, often one that also occurs on the command line — a literal that must arrive untouched)
+    or a falsy literal (None, 0, False, ())."""
+    dv = {}
+    nargs = len(sig["args"])
+    for n in list(sig["args"][nargs - sig["ndefaults"]:]) + list(sig["kwdefaults"]):
+        r = rng.random()
+        if r < 0.25:
+            pool = [c for c in cands if len(c) < 200] + DEFAULT_TEXTS
+            dv[n] = ["str", rng.choice(pool)]
+        elif r < 0.4:
+            # (with the real evaluator the argument `None` is worth None: keep the default distinguishable)
+            dv[n] = ["lit", rng.choice([x for x in DEFAULT_LITERALS if not (real and x == "None")])]
+    if dv:
+        sig["defvals"] = dv
+    return sig
+
+
 def gen_string(rng, dash_ok=True):
     if rng.random() < 0.04:
         return gen_hostile(rng, dash_ok)
@@ -340,4 +363,173 @@ def small_scope(tier, rng):
             for mode in (MODES if tier == "thorough" else [rng.choice(MODES)]):
                 out.append(dict(kind="parse", sig=sig, argv=list(argv), mode=mode, stdin="IN", unimportable=["a b"],
                                 evalerr=[]))
+    return out
+
+
+# ----------------------------------------------------------------------------
+# `apply` cases: the whole delivery path in-process (auto_apply / _PyMain.apply / heuristic_cmd / --map) onto every
+# kind of callable that _get_argspec distinguishes
+# ----------------------------------------------------------------------------
+
+# kinds whose parameters `py` can see (it strips the bound first parameter itself) ...
+CKINDS_TRANSPARENT = ["function", "lambda", "method", "classmethod", "classmethod_via_instance", "staticmethod",
+                      "class_init", "class_new", "class_inherit_init"]
+# ... and kinds that `py` can only call as f(*args, **kwargs): option names are passed on as typed
+CKINDS_OPAQUE = ["callable_instance", "partial", "wrapped", "class_generic_new", "class_exception"]
+CKINDS = CKINDS_TRANSPARENT + CKINDS_OPAQUE
+CKINDS_IN_CLASS_BODY = [k for k in CKINDS if k not in ("function", "lambda", "partial", "wrapped")]
+GENERIC_SIG = dict(args=[], ndefaults=0, varargs="c15a", kwonly=[], kwdefaults=[], varkw="c15k")
+
+ROUTES = ["direct", "main_apply", "main_heur", "map"]
+TARGET_NAME = "c15t"
+
+DIRECT_MODE_TOKENS = {
+    "auto": [None, None, "auto", "a", "Automatic", " AUTO "],
+    "string": ["string", "string", "Str", "s", "literals", "strs"],
+    "eval": ["eval", "eval", "e", "Expr", "expressions"],
+}
+MAIN_MODE_GOPTS = {
+    "auto": [["--args=auto"], ["--args", "a"], ["-arg-mode=Automatic"], ["--safe", "--args=auto"], ["-q", "--args=auto"]],
+    "string": [["--safe"], ["--safe"], ["--args=string"], ["--args", "Str"], ["-q", "--safe"], ["--args=eval", "--safe"],
+               ["--argument=literal"], ["--safe", "--output=silent"]],
+    "eval": [["--args=eval"], ["--arguments", "e"], ["--safe", "--args=expr"], ["--arg_mode=Evaluate", "--silent"]],
+}
+APPLY_FORMS = [["--apply", TARGET_NAME], ["--apply", TARGET_NAME], ["--apply=" + TARGET_NAME], ["-apply", TARGET_NAME],
+               ["--call", TARGET_NAME], ["apply", TARGET_NAME], ["%apply", TARGET_NAME], ["-call=" + TARGET_NAME]]
+MAP_FORMS = [["--map", TARGET_NAME], ["--map=" + TARGET_NAME], ["map", TARGET_NAME]]
+
+
+# Argument strings for cases that run with the REAL evaluator (pyflyby's _Namespace, empty import database): what
+# they are is decided by plain Python (eval in a namespace holding os and sys), not by a stub
+REAL_EVALUABLE = ["2+3", "None", "[1, 2]", "0x10", "1e3", "3.5", "True", "{'a': 1}", "len('abc')", "sys.maxsize > 0",
+                  "len(os.sep)", "(1, 2)", "'q'", '"dq"', "'2+3'", "os.sep", "1 # c", "not 0", "'a' 'b'", "b'by'",
+                  "r'\\d'", "10-3", "2**10", "os.sep * 2", "'%s' % 5", "[x for x in (1, 2)]"]
+REAL_UNIMPORTABLE = ["zzqhello", "zzq.bar", "Willowbrook29817621+5", "zzqf(x)", "zzqx if zzqy else zzqz",
+                     "\u540d\u524dzzq", "zzq1 + os.sep", "zzq_", "[zzqa, 1]", "zzqcaf.txt", "zzq-latte", "zzq.a.b.c",
+                     "sys.zzq", "os.sep + zzq"]
+REAL_UNPARSABLE = ["a b", "$HOME", "hello world", "(1,", "x;y", "`ls`", "~/f", "*", "a=b", "1 2", "import os",
+                   "print 1", "caf\udce9.txt", "'unterminated", "2014-07-18x", "a|", "%s", "> out", "$(true)", "x = 1"]
+REAL_BLANK = [" ", "\t", "\n"]
+REAL_POOL = REAL_EVALUABLE * 2 + REAL_UNIMPORTABLE * 2 + REAL_UNPARSABLE + REAL_BLANK
+
+
+def real_substitute(rng, case):
+    """Replace every argument string of a generated apply case by one from the real-evaluator pool."""
+    def pick():
+        return rng.choice(REAL_POOL)
+    if case.get("items") is not None:
+        items = []
+        for it in case["items"]:
+            if it[0] == "pos":
+                items.append(["pos", pick()])
+            elif it[0] == "opt":
+                items.append(["opt", it[1], it[2], pick()])
+            elif it[0] == "dd":
+                items.append(["dd", [pick() for _ in it[1]]])
+            else:
+                items.append(it)
+        case["items"] = items
+        case["argv"] = render(items)
+    else:
+        case["map_args"] = [pick() for _ in case["map_args"]]
+        case["argv"] = (["--"] if case["map_literal"] else []) + case["map_args"]
+    case["ns"] = "real"
+    case["stdin"] = rng.choice(["", "IN", "2+3", "zzqhello"])
+    return case
+
+
+def looks_like_option_or_blank(a):
+    """`py f ARGS...` without an argument-mode option first tries to read "f ARGS..." as one piece of Python text,
+    unless an argument is blank or looks like an option (dash + letter/dash)."""
+    import re
+    return bool(re.match(r"\s*$|-[a-zA-Z-]", a))
+
+
+def _sig_for_ckind(rng, ckind):
+    for _ in range(50):
+        sig = gen_sig(rng)
+        if ckind in CKINDS_IN_CLASS_BODY and any(n.startswith("__") for n in sig_names(sig)):
+            continue        # `__q` inside a class body is a different (mangled) parameter name
+        return sig
+    return dict(args=["x"], ndefaults=0, varargs=None, kwonly=[], kwdefaults=[], varkw=None)
+
+
+def one_positional_binds(sig):
+    nreq = len(sig["args"]) - sig["ndefaults"]
+    if any(a not in sig["kwdefaults"] for a in sig["kwonly"]):
+        return False
+    if nreq > 1:
+        return False
+    return bool(sig["args"]) or bool(sig["varargs"])
+
+
+def gen_apply(rng, ckind=None, route=None, valid=None, real=None):
+    ckind = ckind or rng.choice(CKINDS)
+    if real is None:
+        real = rng.random() < 0.3
+    sig = _sig_for_ckind(rng, ckind)
+    route = route or rng.choice(["direct", "direct", "main_apply", "main_apply", "main_heur", "main_heur", "map"])
+    if route == "map":
+        for _ in range(20):
+            if one_positional_binds(sig):
+                break
+            sig = _sig_for_ckind(rng, ckind)
+        else:
+            route = "direct"
+    # the real evaluator: string and automatic mode only (what eval mode does with text that cannot be evaluated is
+    # not part of the statement)
+    mode = rng.choice(["string", "auto", "auto"] if real else MODES)
+    case = dict(kind="apply", ckind=ckind, route=route, sig=sig, mode=mode,
+                stdin=rng.choice(["", "IN", "1+1", "line1\nline2\n", "--x"]))
+    if route == "map":
+        n = rng.choice([1, 1, 2, 3, 4])
+        literal = rng.random() < 0.5
+        args = []
+        for _ in range(n):
+            s = gen_string(rng, dash_ok=literal)
+            while not literal and (s.startswith("-") or s in HELP_TOKENS):
+                s = gen_string(rng, dash_ok=False)
+            args.append(s)
+        case.update(map_literal=literal, map_args=args, argv=(["--"] if literal else []) + args, items=None,
+                    gopts=rng.choice(MAIN_MODE_GOPTS[mode] + ([[], ["-q"]] if mode == "auto" else [])),
+                    form=rng.choice(MAP_FORMS))
+        if real:
+            real_substitute(rng, case)
+        return case
+    r = rng.random() if valid is None else (0.0 if valid else 0.9)
+    if r < 0.45:
+        items = gen_items_valid(rng, sig)
+    elif r < 0.8:
+        items = gen_items(rng, sig, wild=False)
+    else:
+        items = gen_items(rng, sig, wild=True)
+    case["items"] = items
+    case["argv"] = render(items)
+    if real:
+        real_substitute(rng, case)
+    if route == "direct":
+        case["mode_token"] = rng.choice(DIRECT_MODE_TOKENS[mode])
+    elif route == "main_apply":
+        case["gopts"] = rng.choice(MAIN_MODE_GOPTS[mode] + ([[], [], ["-q"]] if mode == "auto" else []))
+        case["form"] = rng.choice(APPLY_FORMS)
+    else:
+        gopts = rng.choice(MAIN_MODE_GOPTS[mode])
+        if mode == "auto" and any(looks_like_option_or_blank(a) for a in case["argv"]) and rng.random() < 0.6:
+            gopts = rng.choice([[], [], ["-q"], ["--output=silent"]])
+        case["gopts"] = gopts
+        case["form"] = [TARGET_NAME]
+    return case
+
+
+def apply_scope(tier, rng):
+    """Every kind of callable through every route, with a command line built to bind and one that need not."""
+    out = []
+    reps = 4 if tier == "thorough" else 1
+    for ckind in CKINDS:
+        for route in ROUTES:
+            for _ in range(reps):
+                for valid, real in ((True, False), (True, True), (False, False), (False, True)):
+                    case = gen_apply(rng, ckind=ckind, route=route, valid=valid, real=real)
+                    add_defvals(rng, case["sig"], case["argv"], real=real)
+                    out.append(case)
     return out
